@@ -8,7 +8,7 @@ import (
 func VP_C14_step() {
 	K, S := 1+vp.Choice(2), 6
 	if vp.Tier() == 1 {
-		K, S = 1+vp.Choice(3), 8
+		K, S = 1+vp.Choice(3), 7 // (8 sectors did not finish inside the thorough budget on a loaded machine)
 	}
 	chunks := vpArbitraryState(K, S)
 	img := vpBuild(chunks, S)
